@@ -395,8 +395,8 @@ theorem bindCommit_spec (s : State) (pod : Pod) (ns name : String) (uid : Nat) (
       have htp' : Tbl.get s.pods (ns, name) = some tp := by rw [← q3.frame.pods]; exact htp
       have hu : tp.uid = pod.uid := by
         rw [hluid]
-        simp only [ne_eq, not_and, Decidable.not_not] at hconf
-        exact hconf huid0
+        simp only [ne_eq, not_or, not_and, Decidable.not_not] at hconf
+        exact hconf.1 huid0
       have hk := (lsame (ns, name) tp htp' hu).2
       apply inv_setPodBound _ (ns, name) tp node (ips.map (toHInfo s)) h3 htp
       · intro hd hm
@@ -433,6 +433,88 @@ theorem bindCommitX_eq (s : State) (pod : Pod) (ns name : String) (uid : Nat) (n
     (h : s.crashMode = false) : bindCommitX s pod ns name uid node ips = bindCommit s pod ns name uid node ips := by
   unfold bindCommitX
   simp [h]
+
+/-- with the facts of the current tree the reaction to EVERY answer of the Binding call (ok, NotFound, Conflict, any
+    other error, applied-but-error-returned) leaves the state `bindCommit` leaves, or just counts the call: nothing is
+    queued except by `bindCommit`'s NotFound branch -/
+theorem bindFinish_good_state (s : State) (pod : Pod) (ns name : String) (uid : Nat) (node : String) (ips : List IP)
+    (ans : BindAnswer) :
+    (bindFinish Facts.good s pod ns name uid node ips ans).1 = s.api.1 ∨
+    (bindFinish Facts.good s pod ns name uid node ips ans).1 = (bindCommit s pod ns name uid node ips).1 := by
+  have hx : (bindCommitX s pod ns name uid node ips).1 = s.api.1 ∨
+      (bindCommitX s pod ns name uid node ips).1 = (bindCommit s pod ns name uid node ips).1 := by
+    rcases bindCommitX_cases s pod ns name uid node ips with e | e
+    · left; rw [e]
+    · right; rw [e]
+  unfold bindFinish
+  split
+  · exact Or.inl rfl
+  · exact hx
+  · exact hx
+  · simp only [Facts.good, if_true]; exact hx
+  · split
+    · simp only [Facts.good, if_true]; exact hx
+    · exact hx
+
+/-- a bind that reports success went through `bindCommitX` (whatever the facts and the fate of the call) -/
+theorem bindFinish_ok_eq (F : Facts) (s : State) (pod : Pod) (ns name : String) (uid : Nat) (node : String) (ips : List IP)
+    (ans : BindAnswer) (h : (bindFinish F s pod ns name uid node ips ans).2.res = .ok) :
+    bindFinish F s pod ns name uid node ips ans = bindCommitX s pod ns name uid node ips := by
+  revert h
+  unfold bindFinish
+  split
+  · intro h; cases h
+  · intro _; rfl
+  · intro _; rfl
+  · split
+    · intro _; rfl
+    · rename_i hb
+      intro h
+      have hc : (bindCommitX s pod ns name uid node ips).2.res = .ok := h
+      have : bindOutcome s ns name uid ans = .conflict := by assumption
+      exfalso
+      -- a Conflict answer never yields an ok result
+      unfold bindOutcome at this
+      split at this
+      · cases this
+      · split at this
+        · cases this
+        · rename_i tp htp
+          split at this
+          · rename_i hcf
+            unfold bindCommitX at hc
+            split at hc
+            · cases hc
+            · unfold bindCommit at hc
+              have hp : (if s.api.2 = true then s.api.1.api.1 else s.api.1).pods = s.pods := by split <;> rfl
+              rw [hp, htp] at hc
+              simp only [hcf, if_true] at hc
+              cases hc
+          · split at this <;> cases this
+  · split
+    · intro h; cases h
+    · intro _; rfl
+
+/-- answered truthfully, with the facts of the current tree, the end of Bind is `bindCommitX` -/
+theorem bindFinish_truthful (s : State) (pod : Pod) (ns name : String) (uid : Nat) (node : String) (ips : List IP) :
+    bindFinish Facts.good s pod ns name uid node ips .truthful = bindCommitX s pod ns name uid node ips := by
+  unfold bindFinish
+  split
+  · rename_i h
+    unfold bindOutcome at h
+    simp at h
+    split at h
+    · cases h
+    · split at h <;> cases h
+  · rfl
+  · rfl
+  · simp [Facts.good]
+  · rename_i h
+    unfold bindOutcome at h
+    simp at h
+    split at h
+    · cases h
+    · split at h <;> cases h
 
 /-- Bind.  Without a crash plan the invariant is preserved; under ANY plan (crash included) the persistent part `PInv`
     is: the only state in which memory and store may disagree is the one after an interrupted multi-address allocation,
@@ -542,13 +624,13 @@ theorem bind_spec (s : State) (ns name : String) (uid : Nat) (node : String) (ch
                       (infos.filterMap id) _ _ hcA hlok ip hip hf
                   · exact chg_stable bl.2.1 ip hnew
                 have f := tAB.frame
-                rcases bindCommitX_cases (bindLoop (bindAlloc s pod node
+                rcases bindFinish_good_state (bindLoop (bindAlloc s pod node
                       { policy := policyOf pod, node := node, uid := pod.uid } infos ch.pick).1 (keyOf pod) node
                       { policy := policyOf pod, node := node, uid := pod.uid } (infos.filterMap id)
                       ((bindAlloc s pod node { policy := policyOf pod, node := node, uid := pod.uid } infos
                         ch.pick).2.2.filterMap id)).1 pod ns name uid node
                     ((bindAlloc s pod node { policy := policyOf pod, node := node, uid := pod.uid } infos
-                      ch.pick).2.2.filterMap id) with e | e
+                      ch.pick).2.2.filterMap id) ch.answer with e | e
                 · rw [e]
                   exact ofInv _ (hiB.quiet (api_quiet _)) (lgB.trans (UnassignsWithin.of_plog_eq _ rfl)) f.admin
                 · rw [e]
